@@ -34,7 +34,7 @@ META = dict(
          "call is back within a load-aware 2.5 s bound (read_timeout_honoured); "
          "each request (MetadataRequest, or ListPartitionReassignmentsRequest for the flexible v1 response header) carries a "
          "unique topic name that the server echoes, so responses are attributable; runt / short frames use every length "
-         "in {0,1,3,4,5,7,8} with both header versions; panics recovered by PanicHandler are attributed to their connection; the "
+         "in {0,1,3,4,5,7,8} with both header versions, v1 headers also get a non-empty tagged-field section (hdrtags); panics recovered by PanicHandler are attributed to their connection; the "
          "in-flight count is computed by the trace spec from server-side events only.",
     note="bounded model; real executions cover the schedules the conductor can force from outside (start of calls, "
          "Close, server answers, silence) - interleavings inside Broker.send are exercised by real goroutine races "
@@ -170,7 +170,10 @@ def gen_cases(ctx, out):
     # 1: flexible header, ListPartitionReassignmentsRequest with Version 2.4) and the length field of
     # runt (0,1,3,4) / shortbody (5,7,8) frames. Behaviours of the 2-caller configuration are run with
     # every combination, the others rotate through them.
-    RUNT = [(ln, hv) for ln in (4, 0, 1, 3) for hv in (1, 0)]
+    # The model's kind "runt" is the class "response header that fails to decode, peer goes on": besides the
+    # runt lengths, a flexible (v1) header with a non-empty tagged-field section (len -1: one small tagged
+    # field, -2: multi-byte varint field count, -3: tag bytes crafted to look like the start of a body).
+    RUNT = [(4, 1), (-3, 1), (4, 0), (-1, 1), (0, 1), (0, 0), (-2, 1), (1, 1), (1, 0), (3, 1), (3, 0)]
     SHORT = [(ln, hv) for ln in (5, 7, 8) for hv in (0, 1)]
     expanded = []
     rot = {"runt": 0, "shortbody": 0, "": 0}
